@@ -66,6 +66,12 @@ static Verdict run_c18(const Case &c)
     for (int j = i + 1; j < e.T; j++)
       if (memcmp(a.out.data() + 48 + 20 * i, a.out.data() + 48 + 20 * j, 16) == 0)
         return bad("header IV slots " + std::to_string(i) + " and " + std::to_string(j) + " are equal");
+  {
+    // the second file (other seed, or the same seed handed over in the same buffer) carries the chain of ITS seed
+    bytes chain2 = ref::iv_chain(seed2, e.T);
+    if (memcmp(b.out.data() + 48, chain2.data(), chain2.size()) != 0)
+      return bad(seed2 == e.seed ? "header IV slots of a second encryption that was handed the same seed buffer are not the SHA-1 chain of the seed" : "header IV slots of the second file are not the SHA-1 chain of its seed");
+  }
   if (seed2 != e.seed)
   {
     if (memcmp(a.out.data() + 48, b.out.data() + 48, 16) == 0)
